@@ -29,7 +29,10 @@ type RReq struct {
 	Flag bool // the rules return only for requests that ask for it: other requests are handed an EMPTY result map
 }
 
-type RTouch struct{ n int64 }
+type RTouch struct {
+	n  int64
+	In *RTouch // a nested object: obj.In.Touch() is a three-level call whose first part is a rule LOCAL
+}
 
 func (t *RTouch) Touch() int64 { return 1 }
 
@@ -38,7 +41,7 @@ func (t *RTouch) Touch() int64 { return 1 }
 func raceRules(ver int) string {
 	s := ""
 	for i, n := range []string{"pa", "pb", "pc", "pd"} {
-		s += fmt.Sprintf("rule \"%s\" \"v%d\" salience %d begin\n  loc = Req.Id\n  obj = Mk()\n  conc {\n    x = loc + 1\n    obj.Touch()\n    y = loc + 2\n    obj.Touch()\n    z = Req.Id\n    w = 3\n  }\n  if Req.Flag {\n    return %d + x + y\n  }\nend\n", n, ver, 9-2*i, ver*1000)
+		s += fmt.Sprintf("rule \"%s\" \"v%d\" salience %d begin\n  loc = Req.Id\n  obj = Mk()\n  conc {\n    x = loc + 1\n    obj.Touch()\n    y = loc + 2\n    obj.In.Touch()\n    z = Req.Id\n    obj.In.Touch()\n    w = 3\n  }\n  if Req.Flag {\n    return %d + x + y\n  }\nend\n", n, ver, 9-2*i, ver*1000)
 	}
 	return s
 }
@@ -59,7 +62,7 @@ func init() {
 		stop := make(chan struct{})
 		var wg sync.WaitGroup
 		// (1) a pool: requests through the wrapper families, concurrent with management calls
-		mk := func() *RTouch { return &RTouch{} }
+		mk := func() *RTouch { return &RTouch{In: &RTouch{}} }
 		gp, err := engine.NewGenginePool(2, 4, 1, raceRules(1), map[string]interface{}{"Mk": mk})
 		if err != nil {
 			return nil, err
